@@ -232,9 +232,11 @@ func resolveIn(data map[string]interface{}, src string) (interface{}, error, boo
 	r.SetThis(data)
 	var v interface{}
 	var rerr error
-	p, pv := core.Call(func() { v, rerr = r.Resolve(context.Background(), sc.Expression) })
+	ctx, release := hostCtx(src)
+	defer release()
+	p, pv := core.Call(func() { v, rerr = r.Resolve(ctx, sc.Expression) })
 	if !p && rerr == nil {
-		if e2 := secondEvaluationOn(r, sc, src, context.Background(), data, outcome(v, nil, false, nil)); e2 != nil {
+		if e2 := secondEvaluationOn(r, sc, src, ctx, data, outcome(v, nil, false, nil)); e2 != nil {
 			return nil, e2, false, nil
 		}
 	}
